@@ -1,4 +1,6 @@
 mod c07;
+mod c08;
+mod c20;
 
 fn main() {
     let args = vf_core::parse_args();
@@ -6,6 +8,8 @@ fn main() {
     let mut run = vf_core::Run::new(&args, level);
     match args.property.as_str() {
         "C07" => c07::run(&mut run),
+        "C08" => c08::run(&mut run),
+        "C20" => c20::run(&mut run),
         other => {
             eprintln!("vf-math does not serve {other}");
             std::process::exit(2);
